@@ -54,6 +54,12 @@ TREES["three_roots"] = ([{"p": "r/a1", "k": "file", "c": ["lit", "same"]}, {"p":
 # overlapping input paths on a file system with FIEMAP under the HDD pin: the files below r/d are collected twice and
 # the extent query is issued for each occurrence - a failing query may not make fclones list the file twice
 TREES["ext4_hdd_overlap"] = (TREES["ext4_hdd"][0] + [{"p": "r/d/x4", "k": "file", "c": ["base", 20000, 3]}], [], "hdd", True)
+# two fresh tmpfs instances below the root: the first files of both have the same inode number (and here the same
+# bytes): a fault on one of them concerns that file, not its namesake by inode number on the other file system
+TREES["two_tmpfs"] = ([{"p": "r/m1", "k": "tmpfs"}, {"p": "r/m2", "k": "tmpfs"},
+                       {"p": "r/m1/one", "k": "file", "c": ["base", 20000, 4]}, {"p": "r/m2/one", "k": "file", "c": ["base", 20000, 4]},
+                       {"p": "r/m1/two", "k": "file", "c": ["base", 20000, 4]}, {"p": "r/m2/other", "k": "file", "c": ["flip", 20000, 4, 19999]}],
+                      [], "ssd", False)
 ROOTS = {"three_roots": ["r", "r2", "r3"], "ext4_hdd_overlap": ["r", "r/d"]}
 ERRNOS = ["EACCES", "EIO", "ENOENT"]
 
@@ -172,6 +178,10 @@ def evaluate(case):
     viol = []
     reached = []
     evals = 0
+    if case["tree"] == "two_tmpfs":
+        from . import c09
+        if not c09.can_mount():
+            return {"violations": [], "evaluations": 0, "nontrivial": None, "outcome": "skipped_no_mount"}
     with C.Scratch(C.EXT4 if ext4 else None) as sc:
         C.make_tree(sc.tree, entries)
         flt = case.get("filter", [])
@@ -214,8 +224,16 @@ def evaluate(case):
             ref = {"files": {p: f for p, f in ref_all["files"].items() if p not in drop}, "roots": ref_all["roots"]}
             return set(e["paths"] for e in G.expected_groups(ref, {"args": ["--min", "0"] + flt}) if e["reported"])
         if expected_for(set()) != set(base_groups):
-            raise C.MachineryError("reference model disagrees with the fault-free run for %s %s: %s vs %s" % (
-                case["tree"], flt, sorted(map(sorted, expected_for(set()))), sorted(map(sorted, base_groups))))
+            # without any fault the groups are already not those of the files' bytes: every comparison below would be
+            # against a wrong baseline. Reported as a violation (the statement's "all other files are grouped exactly
+            # as if ..." presupposes a correct grouping), not as a machinery problem.
+            return {"violations": [{"kind": "fault_free_run_differs_from_reference", "call": "none", "errno": "none", "stage": "none",
+                                    "filter": " ".join(flt) or "default", "transform": bool(trargs), "second_fault": False,
+                                    "on_input_path": False,
+                                    "detail": "tree %s, `%s`: reported %s, the files' bytes give %s" % (
+                                        case["tree"], " ".join(args), sorted(map(sorted, base_groups)),
+                                        sorted(map(sorted, expected_for(set()))))}],
+                    "evaluations": 1, "nontrivial": None, "outcome": "fault_free_wrong"}
 
         def affected_by(ev, errno_name=None):
             p = ev.path
